@@ -125,6 +125,22 @@ Theorem C04_dirs : forall us d,
 Proof. intros us d. split; [apply sentinel_target_ok|apply patsubst_sentinel]. Qed.
 Print Assumptions C04_dirs.
 
+(* the sentinels of a whole step (directory_deps on the parent directories of its outputs, in output order): every
+   distinct output directory other than the build directory itself gets a sentinel, exactly one, and nothing else
+   does - whatever the other output directories of the step are called *)
+Theorem C04_step_dirs : forall dirs,
+  (forall s, In s (directory_deps dirs) <-> exists d, In d dirs /\ d <> [] /\ s = sentinel_of d) /\
+  NoDup (directory_deps dirs).
+Proof. exact directory_deps_exact. Qed.
+Print Assumptions C04_step_dirs.
+
+(* sibling directories whose names are character-wise prefixes of one another, a nested one, a repeated one, the
+   build directory itself *)
+Example C04_step_dirs_prefix_names :
+  directory_deps [STR "gen"; STR "gen #2"; []; STR "gen2"; STR "gen/sub"; STR "gen"] =
+  [STR "gen/.dir"; STR "gen #2/.dir"; STR "gen2/.dir"; STR "gen/sub/.dir"].
+Proof. vm_compute. reflexivity. Qed.
+
 (* patsubst works on blank-separated words and joins by ONE blank: single blanks inside a directory name survive
    (computed), two consecutive blanks do not - mkdir -p then creates another directory than the one the sentinel is
    touched in *)
